@@ -224,7 +224,7 @@ def step (st : St) (line : String) : St × String :=
       | .err c => (st, s!"err {c}")
       | .fuel => (st, "fuel")
     | _, _, _ => (st, "bad-op decsfail")
-  | "tok" :: _ | "parse" :: _ | "fmt" :: _ | "validate" :: _ | "cycle" :: _ | "imports" :: _ =>
+  | "tok" :: _ | "parse" :: _ | "fmt" :: _ | "validate" :: _ | "cycle" :: _ | "imports" :: _ | "gen" :: _ | "geninvalid" :: _ | "cli" :: _ =>
     (st, Driver.Text.step toks)
   | _ => (st, "bad-op unknown")
 
